@@ -42,13 +42,14 @@ theorem retryCtx {c : Cfg} {ar aq : Nat} {s : S} (h : Inv c ar aq s) (hrun : s.r
     · exact ⟨hm.1, hm.2.1, hm.2.2.2.1⟩
   have hlc := h.k23 hcl (Or.inr hp)
   obtain ⟨hpt, hure, hurr⟩ := h.k26 hcl hp
-  obtain ⟨hsr, hdir⟩ := h.k7 hcl
+  have hsr := (h.k7 hcl).1
+  have hdir : s.direct = false := not_direct_of_phase h.k7 hcl (by rw [hp]; decide)
   have hpd : s.procDone = false := by
     cases hh : s.procDone with
     | false => rfl
     | true => have := h.k5 hh; rw [hcl] at this; cases this
   exact ⟨hcl, how, hm.1, hm.2.1, hlc, allDead_of_counted _ (h.k22 how) hlc, hpt, hure, hurr, hm.2.2, h.k25 hcl how hm.2.1,
-    h.k16 hcl (by simp [hp, upPhase]), hsr, hdir, hpd, fun hq => h.k24 hcl how hq hm.2.1⟩
+    h.k16 hcl (by simp [hp, upPhase]), hsr, hdir, hpd, fun hq => or3_nd (h.k24 hcl how hq hm.2.1) hdir⟩
 
 /-- the end of the retry phase for the state `retried …` -/
 theorem finish_retried (c : Cfg) (ar aq : Nat) (s : S) (h : Inv c ar aq s) (hrun : s.running = true) (hp : s.phase = .Retry)
@@ -114,7 +115,7 @@ theorem finish_retried (c : Cfg) (ar aq : Nat) (s : S) (h : Inv c ar aq s) (hrun
     unfold retried at hb1 h3' ⊢
     obtain ⟨k0, k1, k2, k3, k4, k5, k6, k7, k8, k9, k10, k11, k12, k13, k14, k15, k16, k17, k18, k19, k20, k21, k22, k23, k24, k25, k26, k27, k28, k29, k30, k31, k32, k33⟩ := h
     refine ⟨k0, hb1.k1, hb1.k2, h3', hb1.k4, k5, k6, ?_, ?_, k9, hb1.k10, hb1.k11, k12, hb1.k13, hb1.k14, ?_, ?_, ?_, ?_, ?_, hb1.k20, hb1.k21, hb1.k22, ?_, ?_, k25, ?_, ?_, ?_, ?_, ?_, hb1.k31, ?_, (fun hh => absurd hh (by simp [hcl]))⟩
-    · intro _; exact ⟨rfl, hdir⟩
+    · exact k7_intro rfl hdir
     · intro _; exact ⟨by show s.pass ≤ 1; omega, Or.inl hps⟩
     · intro _ hh; simp [hp, Phase.next, upPhase] at hh
     · intro _ _; exact hrst
